@@ -129,6 +129,7 @@ type ContractFile struct {
 	LockInvs   []*LockInv
 	LockLevels [][2]string
 	Ifaces     map[string]*InterfaceContract
+	Externs    map[string]*Contract // "pkgpath::Key" -> contract for a function outside the repository
 	GhostVars  map[string]string // name -> type text
 	Consts     map[string]string
 	Hash       string
@@ -136,7 +137,7 @@ type ContractFile struct {
 }
 
 var itemKeywords = map[string]bool{"spec": true, "lemma": true, "axiom": true, "typeinv": true, "interface": true,
-	"ghost": true, "guarded_by": true, "lockinv": true, "locklevel": true, "func": true, "const": true, "props": true}
+	"ghost": true, "guarded_by": true, "lockinv": true, "locklevel": true, "func": true, "const": true, "props": true, "extern": true}
 
 var clauseKeywords = map[string]bool{"mode": true, "instances": true, "requires": true, "ensures": true, "modifies": true,
 	"pure": true, "trusted": true, "holds": true, "acquires": true, "releases": true, "decreases": true, "case": true, "use": true,
@@ -175,7 +176,7 @@ func ParseContractFile(path string, pkg string) (*ContractFile, error) {
 
 func ParseContractText(data, path, pkg string) (*ContractFile, error) {
 	cf := &ContractFile{Pkg: pkg, Path: path, Funcs: map[string]*Contract{}, Specs: map[string]*SpecFn{},
-		TypeInvs: map[string]*TypeInv{}, Ifaces: map[string]*InterfaceContract{}, GhostVars: map[string]string{}, Consts: map[string]string{}}
+		TypeInvs: map[string]*TypeInv{}, Ifaces: map[string]*InterfaceContract{}, GhostVars: map[string]string{}, Consts: map[string]string{}, Externs: map[string]*Contract{}}
 	// collect logical lines: a //@ line starting with an item or clause keyword starts a new logical line,
 	// anything else continues the previous one.
 	var logical []rawLine
@@ -209,7 +210,7 @@ func ParseContractText(data, path, pkg string) (*ContractFile, error) {
 			return fmt.Errorf("%s:%d: %s", path, rl.line, fmt.Sprintf(f, a...))
 		}
 		if itemKeywords[w] && !(w == "ghost" && strings.HasPrefix(rl.text, "ghost@")) {
-			if w != "func" && w != "interface" {
+			if w != "func" && w != "interface" && w != "extern" {
 				cur = nil
 			}
 			switch w {
@@ -310,6 +311,20 @@ func ParseContractText(data, path, pkg string) (*ContractFile, error) {
 				}
 				cf.Funcs[c.Key] = c
 				cf.FuncOrder = append(cf.FuncOrder, c.Key)
+				cur = c
+			case "extern":
+				// extern <package path> <Recv.Name | Name>(params) (results)
+				f := strings.SplitN(rest, " ", 2)
+				if len(f) != 2 {
+					return nil, fail("extern <package path> <function header>")
+				}
+				c, err := parseFuncHeader(strings.TrimSpace(f[1]))
+				if err != nil {
+					return nil, fail("%v", err)
+				}
+				c.Pkg, c.File, c.Line = f[0], path, rl.line
+				c.Props = []string{"-"}
+				cf.Externs[f[0]+"::"+c.Key] = c
 				cur = c
 			case "interface":
 				// interface I.M(params) (results)
